@@ -11,8 +11,8 @@ use std::collections::HashSet;
 
 use crate::core::cell_info::get_num_children;
 use crate::core::serialization::{
-    cell_to_children, cell_to_parent, get_resolution, get_stride, is_first_child,
-    FIRST_HILBERT_RESOLUTION, MAX_RESOLUTION,
+    cell_to_children, cell_to_parent, deserialize, get_resolution, get_stride, is_first_child,
+    serialize, FIRST_HILBERT_RESOLUTION, HILBERT_START_BIT, MAX_RESOLUTION, REMOVAL_MASK,
 };
 
 /// Expands a set of A5 cells to a target resolution by generating all descendant cells.
@@ -74,6 +74,25 @@ pub fn uncompact(cells: &[u64], target_resolution: i32) -> Result<Vec<u64>, Stri
     Ok(result)
 }
 
+/// Sort key under which every cell lies strictly between its first and its last child.
+///
+/// Raw indices have this property from resolution 1 downwards, but a resolution 0 cell
+/// stores its origin in the top 6 bits while its children store 5 * origin + quintant
+/// there, and the world cell is 0. Sorting by raw index therefore interleaves base cells
+/// with quintants of other faces, so sibling groups stop being adjacent and a cell can
+/// end up next to its own complete set of children without being noticed.
+fn hierarchy_key(cell: u64) -> u64 {
+    match get_resolution(cell) {
+        // Directly above base cell 0 (bit 0 is never set in a canonical index)
+        -1 => (1u64 << (HILBERT_START_BIT - 1)) + 1,
+        0 => {
+            let origin = cell >> HILBERT_START_BIT;
+            ((5 * origin) << HILBERT_START_BIT) | (cell & REMOVAL_MASK)
+        }
+        _ => cell,
+    }
+}
+
 /// Compacts a set of A5 cells by replacing complete groups of sibling cells with their parent cells.
 ///
 /// # Arguments
@@ -88,13 +107,17 @@ pub fn compact(cells: &[u64]) -> Result<Vec<u64>, String> {
         return Ok(Vec::new());
     }
 
-    // Single sort and dedup
-    let unique_cells: HashSet<u64> = cells.iter().copied().collect();
+    // Single sort and dedup. Indices are brought into canonical form first (this also
+    // rejects indices that do not decode to a cell), so equal cells compare equal.
+    let mut unique_cells: HashSet<u64> = HashSet::with_capacity(cells.len());
+    for &cell in cells {
+        unique_cells.insert(serialize(&deserialize(cell)?)?);
+    }
     let mut current_cells: Vec<u64> = unique_cells.into_iter().collect();
-    current_cells.sort_unstable();
+    current_cells.sort_by_cached_key(|&cell| hierarchy_key(cell));
 
     // Compact until no more changes
-    // No re-sorting needed - parents maintain sorted order!
+    // No re-sorting needed - parents maintain sorted order (by hierarchy_key)!
     let mut changed = true;
     while changed {
         changed = false;
